@@ -46,6 +46,31 @@ theorem C18_fresh_statements :
         (f.2 = "db.Statement.Context" ∨ f.2 = "stmt.Context" ∨ (f.2 = "context.Background()" ∧ l.fn = "Open"))) := by
   decide
 
+/-- prepared-statement wrappers: the receivers of the driver calls in prepare_stmt.go are the pool
+    they wrap, or -- inside a transaction -- the statement re-bound to the transaction WITH THE SAME
+    `ctx` (`Tx.StmtContext(ctx, …)` may prepare the statement again on the transaction's connection) -/
+theorem C18_stmt_context :
+    ∀ s ∈ callSites, s.file = "prepare_stmt.go" →
+      s.recv ∈ ["conn", "beginner", "stmt", "tx.Tx.StmtContext(ctx, stmt.Stmt)"] := by
+  decide
+
+/-- the ONLY assignment to a `Context` field anywhere in the non-test source is the one in
+    `Session()` (whose guard is the subject of `C18_session_context_set`) -/
+theorem C18_context_writes :
+    contextWrites = [("gorm.go", "DB.Session", "tx.Statement.Context", "config.Context")] := by decide
+
+/-- gorm manufactures no context: every call into package `context` is `context.Background()`,
+    handed to a logger method or stored as the ROOT handle's context in `Open` -/
+theorem C18_context_makes :
+    ∀ m ∈ contextMakes, m.2.2.1 = "context.Background()" ∧
+      (m.2.2.2 ∈ ["arg:Warn", "arg:Error", "arg:Info", "arg:Trace"] ∨
+       (m.1 = "gorm.go" ∧ m.2.1 = "Open" ∧ m.2.2.2 = "field:Context")) := by decide
+
+/-- … and declares no context wrapper type: the structs holding a `context.Context` are the
+    session literal, the statement and the serializer value, none of them embeds it -/
+theorem C18_context_holders :
+    ∀ h ∈ contextHolders, h.2.2 ≠ "<embedded>" ∧ h.2.1 ∈ ["Session", "Statement", "serializer"] := by decide
+
 /-- the model knows every field of `type Session struct` (a new field means a new way of
     configuring a session: the flag model must be revisited) -/
 theorem C18_session_fields : sessionFieldTypes = knownSessionFields := by decide
